@@ -177,7 +177,7 @@ func runC01(c *Ctx) {
 		}
 		var outside []string
 		for _, e := range p.Callers(h) {
-			if e.Caller != adv {
+			if !p.OnlyCalledWithin(e.Caller, adv) {
 				outside = append(outside, FuncName(e.Caller))
 			}
 		}
@@ -240,9 +240,47 @@ func runC01(c *Ctx) {
 		helper[n] = p.MethodOf(msgT, n)
 	}
 	{
-		paths, ok := EnumPaths(adv.Blocks[0], nil, IsReturn, 0)
-		if !ok {
-			c.Unknown("C01.4", FuncName(adv), "paths", adv.Pos(), "too many paths")
+		// the decision function, and the continuation(s) it tail-calls when it was split in two
+		decision := []*ssa.Function{adv}
+		isDecision := map[*ssa.Function]bool{adv: true}
+		for i := 0; i < len(decision) && i < 4; i++ {
+			ForEachInstr(decision[i], func(in ssa.Instruction) {
+				ret, ok := in.(*ssa.Return)
+				if !ok || len(ret.Results) != 1 {
+					return
+				}
+				call, ok := ret.Results[0].(*ssa.Call)
+				if !ok {
+					return
+				}
+				cal := call.Call.StaticCallee()
+				if cal == nil || isDecision[cal] || !p.OnlyCalledWithin(cal, adv) || len(cal.Blocks) == 0 {
+					return
+				}
+				for _, h := range helper {
+					if h == cal {
+						return
+					}
+				}
+				isDecision[cal] = true
+				decision = append(decision, cal)
+			})
+		}
+		var paths []CFGPath
+		for _, df := range decision {
+			ps, ok := EnumPaths(df.Blocks[0], nil, IsReturn, 0)
+			if !ok {
+				c.Unknown("C01.4", FuncName(df), "paths", df.Pos(), "too many paths")
+			}
+			for _, cp := range ps {
+				// a tail call into a continuation is judged there
+				if call, isCall := cp.End.(*ssa.Return).Results[0].(*ssa.Call); isCall {
+					if cal := call.Call.StaticCallee(); cal != nil && isDecision[cal] && cal != adv {
+						continue
+					}
+				}
+				paths = append(paths, cp)
+			}
 		}
 		type verdict struct {
 			bad int
